@@ -19,7 +19,7 @@ use std::sync::Mutex;
 
 #[derive(Clone, Debug, Serialize, Deserialize, Hash, PartialEq, Eq)]
 pub struct FreshCase {
-    /// sequence of call kinds: 0 encaps classic, 1 encaps hybrid, 2 pke, 3 header, 4 keygen, 5 rekey, 6 recaps
+    /// sequence of call kinds: 0 encaps classic, 1 encaps hybrid, 2 pke, 3 header, 4 keygen, 5 rekey, 6 recaps, 7 key generation by a restored snapshot of the master key
     pub calls: Vec<u8>,
     pub threads: u8,
     pub shared_instance: bool,
@@ -27,7 +27,7 @@ pub struct FreshCase {
 }
 
 fn strategy() -> impl Strategy<Value = FreshCase> {
-    (proptest::collection::vec(0u8..7, 20..60), 1u8..=8, any::<bool>(), 0u8..40).prop_map(|(calls, threads, shared_instance, ptx_len)| FreshCase { calls, threads, shared_instance, ptx_len })
+    (proptest::collection::vec(0u8..8, 20..60), 1u8..=8, any::<bool>(), 0u8..40).prop_map(|(calls, threads, shared_instance, ptx_len)| FreshCase { calls, threads, shared_instance, ptx_len })
 }
 
 #[derive(Default)]
@@ -85,6 +85,8 @@ pub fn record_enc(sets: &Sets, secret: &[u8], enc: &XEnc) -> CheckResult {
 pub struct Inst {
     /// a fixed encapsulation that is re-encapsulated again and again
     pub fixed: Mutex<Option<XEnc>>,
+    /// an older serialization of the master key ("backup")
+    pub snapshot: Mutex<Option<Vec<u8>>>,
     pub cc: Covercrypt,
     pub msk: Mutex<MasterSecretKey>,
     pub mpk: std::sync::RwLock<MasterPublicKey>,
@@ -105,7 +107,7 @@ pub fn instance(sets: &Sets) -> Result<Inst, Fail> {
     record_mpk(sets, &mpk, true)?;
     let usk = cc.generate_user_secret_key(&mut msk, &AccessPolicy::parse("SEC::TOP").unwrap()).map_err(e)?;
     record_usk(sets, &usk)?;
-    Ok(Inst { fixed: Mutex::new(None), cc, msk: Mutex::new(msk), mpk: std::sync::RwLock::new(mpk), usk })
+    Ok(Inst { fixed: Mutex::new(None), snapshot: Mutex::new(None), cc, msk: Mutex::new(msk), mpk: std::sync::RwLock::new(mpk), usk })
 }
 
 fn record_usk(sets: &Sets, usk: &UserSecretKey) -> CheckResult {
@@ -220,6 +222,22 @@ pub fn one_call(inst: &Inst, sets: &Sets, kind: u8, ptx_len: u8, col: &Collector
             drop(msk);
             record_usk(sets, &usk)?;
             col.class("calls:keygen");
+        }
+        7 => {
+            // restore a backup of the master key and issue a key from it: identifiers must be
+            // fresh even across copies of one master key
+            let bytes = {
+                let msk = inst.msk.lock().unwrap();
+                let mut snap = inst.snapshot.lock().unwrap();
+                if snap.is_none() {
+                    *snap = Some(ser(&*msk)?);
+                }
+                snap.clone().unwrap()
+            };
+            let mut restored: MasterSecretKey = de(&bytes).map_err(|e| Fail::new("msk-snapshot-unreadable", e))?;
+            let usk = inst.cc.generate_user_secret_key(&mut restored, &AccessPolicy::parse("SEC::LOW").unwrap()).map_err(|e| Fail::new("keygen-failed", short_err(&e)))?;
+            record_usk(sets, &usk)?;
+            col.class("calls:keygen-from-restored-master-key");
         }
         6 => {
             // re-encapsulate the same encapsulation repeatedly: each result must be fresh
@@ -377,7 +395,7 @@ pub fn run(ctx: &Ctx, col: &Collector) -> Meta {
         col.nontrivial(&("secret", v));
     }
     col.class_n("distinct:total", total as u64);
-    for c in ["calls:encaps-classic", "calls:encaps-hybridized", "calls:pke-encrypt", "calls:header-generate", "calls:keygen", "calls:rekey", "calls:recaps", "multi-thread-workloads", "instances-created"] {
+    for c in ["calls:encaps-classic", "calls:encaps-hybridized", "calls:pke-encrypt", "calls:header-generate", "calls:keygen", "calls:rekey", "calls:recaps", "calls:keygen-from-restored-master-key", "multi-thread-workloads", "instances-created"] {
         if col.class_count(c) == 0 && !col.stopped() {
             col.note(format!("generator unhealthy: class {c} empty"));
         }
@@ -388,7 +406,7 @@ pub fn run(ctx: &Ctx, col: &Collector) -> Meta {
 fn meta() -> Meta {
     Meta {
         level: "exploration",
-        rule: "generated workloads of 20-60 calls (encaps classic / hybridized, PKE encrypt, header generate, key generation, rekey '*', recaps of one fixed encapsulation) with identical arguments, run on one shared instance or on fresh instances, from 1-8 threads, followed by contention bursts (8 threads issuing the same kind of call at once on the shared instance) and with headers generated with and without authentication data; every returned secret, tag, trap, masked seed, ML-KEM ciphertext, AEAD nonce (PKE and header metadata), user-id marker vector and every public value published by a rekey is inserted in a run-wide set per kind and must be new; the header's encrypted metadata must not decrypt under the returned secret used as AES key while the authorized path succeeds. Non-trivial = each value compared; distinct_nontrivial counts the distinct tags, nonces, user ids and secrets".into(),
+        rule: "generated workloads of 20-60 calls (encaps classic / hybridized, PKE encrypt, header generate, key generation, rekey '*', recaps of one fixed encapsulation, key generation by a restored backup of the master key) with identical arguments, run on one shared instance or on fresh instances, from 1-8 threads, followed by contention bursts (8 threads issuing the same kind of call at once on the shared instance) and with headers generated with and without authentication data; every returned secret, tag, trap, masked seed, ML-KEM ciphertext, AEAD nonce (PKE and header metadata), user-id marker vector and every public value published by a rekey is inserted in a run-wide set per kind and must be new; the header's encrypted metadata must not decrypt under the returned secret used as AES key while the authorized path succeeds. Non-trivial = each value compared; distinct_nontrivial counts the distinct tags, nonces, user ids and secrets".into(),
         exhaustive: false,
         assumptions: vec!["detects reuse and low-entropy sources (constant, counter, per-call reseeding), not statistical bias".into()],
     }
